@@ -3,6 +3,7 @@ also derives from the real MIR (DESIGN Appendix D). -/
 import Lean.Data.Json
 import NadaVerif.Compile
 import NadaVerif.Spec.C02
+import NadaVerif.Spec.Graph
 
 namespace NadaVerif.Driver
 open Lean NadaVerif
@@ -185,7 +186,10 @@ def runEvents (m : Mach) (evs : List Json) : List Json × Mach := Id.run do
         | .error e => out := out ++ [Json.mkObj [("err", Json.str e)]]
         | .ok decls =>
           match compile m.st decls with
-          | .ok mir => out := out ++ [Json.mkObj [("mir", mirJson mir)]]
+          | .ok mir => out := out ++ [Json.mkObj [("mir", mirJson mir), ("spec", Json.mkObj [
+              ("closed", Json.bool (Spec.closed mir)), ("acyclic", Json.bool (Spec.acyclic mir)),
+              ("scoped", Json.bool (Spec.argScoped mir)), ("exact", Json.bool (Spec.exact mir)),
+              ("storeWF", Json.bool (Spec.storeWF m.st))])]]
           | .error e => out := out ++ [Json.mkObj [("err", Json.str (errStr e))]]
       | .error _ => out := out ++ [Json.mkObj [("error", Json.str "bad event")]]
   return (out, m)
